@@ -418,6 +418,13 @@ def _params_defaulting_to_none(init: FuncInfo) -> Set[str]:
     return out
 
 
+def _is_loaded_strategy(fd: FuncInfo, name: ast.Name) -> bool:
+    """The callee is a local holding the strategy just loaded with <X>.from_dict(d.pop(..))."""
+    r = D.reaching_value(fd.node, name, name.id)
+    v = r[1] if r is not None else D.resolve(D.definitions(fd.node), name)
+    return isinstance(v, ast.Call) and isinstance(v.func, ast.Attribute) and v.func.attr == "from_dict" and bool(derived_keys(fd, v))
+
+
 def _return_calls(m: FuncInfo) -> List[ast.Call]:
     defs = D.definitions(m.node)
     out = []
@@ -444,7 +451,7 @@ def j2_j3_constructor_round_trip(ctx) -> None:
             if callee == "cls":
                 target = cls
                 ctx.ok("J3", f"{fd.qualname} rebuilds through cls(...): subclasses keep their own form")
-            elif callee in ("strategy", "strat") and family(P, cls) == "rule":
+            elif family(P, cls) == "rule" and isinstance(c.func, ast.Name) and _is_loaded_strategy(fd, c.func):
                 # VerificationRule: rebuilt by re-applying the strategy
                 ctx.ok("J3", f"{fd.qualname} rebuilds by re-applying the loaded strategy")
                 continue
